@@ -4,6 +4,7 @@
 // the consumer kinds; both start concurrently, so attach-vs-set order and every window in between is decided by the
 // schedule.  Oracles: exactly-once counter, digest equality, canary/moved flag of the tracked payload, "continuation
 // only after Set began" by logical clock, Ready monotonicity + readability, deadlock detector, tracked-live == 0.
+#define VF_NO_NEW_OVERRIDE  // this family brings its own global allocation functions: the same counters + a per-thread failpoint
 #include "vf_exec.hpp"
 
 #include <yaclib/async/connect.hpp>
@@ -21,6 +22,79 @@
 
 using namespace vf;
 using yaclib::Result;
+
+////////////////////////////////////////////////////////////////////////////////////////////////////
+// global allocation functions of this family: as in vf.hpp (counting, malloc based) plus a failpoint — when armed, the
+// n-th throwing `operator new` of the arming thread throws std::bad_alloc (used by the `attach-fails-then-retry` cell).
+static thread_local long tl_fail_new = -1;
+
+inline void* CoreAlloc(std::size_t n, std::size_t al, bool may_throw) {
+  if (may_throw && tl_fail_new >= 0 && tl_fail_new-- == 0) {
+    throw std::bad_alloc{};
+  }
+  if (n == 0) {
+    n = 1;
+  }
+  void* p = nullptr;
+  if (al <= alignof(std::max_align_t)) {
+    p = std::malloc(n);
+  } else if (posix_memalign(&p, al, n) != 0) {
+    p = nullptr;
+  }
+  if (p == nullptr) {
+    std::abort();
+  }
+  vf::g_news.fetch_add(1, vf::kRlx);
+  return p;
+}
+inline void CoreFree(void* p) noexcept {
+  if (p != nullptr) {
+    vf::g_deletes.fetch_add(1, vf::kRlx);
+    std::free(p);
+  }
+}
+void* operator new(std::size_t n) {
+  return CoreAlloc(n, 1, true);
+}
+void* operator new[](std::size_t n) {
+  return CoreAlloc(n, 1, true);
+}
+void* operator new(std::size_t n, const std::nothrow_t&) noexcept {
+  return CoreAlloc(n, 1, false);
+}
+void* operator new[](std::size_t n, const std::nothrow_t&) noexcept {
+  return CoreAlloc(n, 1, false);
+}
+void* operator new(std::size_t n, std::align_val_t a) {
+  return CoreAlloc(n, static_cast<std::size_t>(a), true);
+}
+void* operator new[](std::size_t n, std::align_val_t a) {
+  return CoreAlloc(n, static_cast<std::size_t>(a), true);
+}
+void operator delete(void* p) noexcept {
+  CoreFree(p);
+}
+void operator delete[](void* p) noexcept {
+  CoreFree(p);
+}
+void operator delete(void* p, std::size_t) noexcept {
+  CoreFree(p);
+}
+void operator delete[](void* p, std::size_t) noexcept {
+  CoreFree(p);
+}
+void operator delete(void* p, std::align_val_t) noexcept {
+  CoreFree(p);
+}
+void operator delete[](void* p, std::align_val_t) noexcept {
+  CoreFree(p);
+}
+void operator delete(void* p, std::size_t, std::align_val_t) noexcept {
+  CoreFree(p);
+}
+void operator delete[](void* p, std::size_t, std::align_val_t) noexcept {
+  CoreFree(p);
+}
 
 namespace {
 
@@ -618,6 +692,116 @@ struct Bomb {
   }
 };
 
+// round 8: the allocation of the continuation fails (std::bad_alloc out of ThenInline / Then(e) / DetachInline). The attach
+// did not happen, so the Future must still own the state: a second attach (or Get) observes the producer's completion
+// exactly once, however Set / drop of the Promise interleaves with the failed and the repeated attach.
+void AttachFailsCase(Ctx& ctx) {
+  using R = Result<Bomb, MyError>;
+  ResetTags();
+  int code = static_cast<int>(ctx.rng.In(1, 1000000));
+  u32 pj = ctx.rng.Below(5), cj = ctx.rng.Below(5);
+  int prod = static_cast<int>(ctx.rng.Below(2));    // 0 Set value, 1 drop the Promise
+  int attach = static_cast<int>(ctx.rng.Below(3));  // failing attach: 0 ThenInline, 1 DetachInline, 2 Then(e)
+  int retry = static_cast<int>(ctx.rng.Below(3));   // afterwards: 0 ThenInline, 1 DetachInline, 2 Get
+  ctx.Note("%s throws std::bad_alloc for its continuation, then the consumer uses %s; producer %s; pre-yields p=%u c=%u ",
+           attach == 0 ? "ThenInline" : attach == 1 ? "DetachInline" : "Then(e)", retry == 0 ? "ThenInline" : retry == 1 ? "DetachInline" : "Get",
+           prod == 0 ? "sets a value" : "drops the Promise", pj, cj);
+  ctx.Class(prod == 0 ? "set" : "drop");
+  Shared sh;
+  Obs obs;
+  bool threw = false, valid_after_throw = true;
+  std::atomic<int> failed_ran{0};
+  auto pool = yaclib::MakeFairThreadPool(1);
+  {
+    auto [f0, p0] = yaclib::MakeContract<Bomb, MyError>();
+    auto f = std::move(f0);
+    yaclib::Future<void, MyError> tail;
+    auto digest = [&obs, &sh](const R& r) {
+      obs.at = Stamp();
+      VF_R(sh.side, "C04,C01");
+      obs.side = sh.side;
+      obs.state = static_cast<int>(r.State());
+      if (obs.state == 0) {
+        obs.code = r.Value().t.v;
+        obs.fresh = r.Value().t.Fresh();
+      } else if (obs.state == 2) {
+        obs.code = r.Error().code;
+      }
+      obs.calls.fetch_add(1, kRlx);
+    };
+    yaclib_std::thread producer([&, p = std::move(p0)]() mutable {
+      Jitter(pj);
+      VF_W(sh.side, "C04,C01");
+      sh.side = code;
+      sh.set_call = Stamp();
+      if (prod == 0) {
+        std::move(p).Set(code, false);
+      } else {
+        auto dead = std::move(p);
+      }
+      sh.set_ret = Stamp();
+    });
+    yaclib_std::thread consumer([&] {
+      Jitter(cj);
+      auto never = [&failed_ran](R&&) {
+        failed_ran.fetch_add(1, kRlx);
+      };
+      tl_fail_new = 0;  // the next throwing operator new of this thread fails: the continuation's core
+      try {
+        if (attach == 0) {
+          auto t = std::move(f).ThenInline(never);
+        } else if (attach == 1) {
+          std::move(f).DetachInline(never);
+        } else {
+          auto t = std::move(f).Then(*pool, never);
+        }
+      } catch (const std::bad_alloc&) {
+        threw = true;
+      }
+      tl_fail_new = -1;
+      valid_after_throw = f.Valid();
+      if (!threw || !f.Valid()) {
+        return;
+      }
+      Jitter(1);
+      if (retry == 0) {
+        tail = std::move(f).ThenInline([digest](R&& r) {
+          digest(r);
+        });
+      } else if (retry == 1) {
+        std::move(f).DetachInline([digest](R&& r) {
+          digest(r);
+        });
+      } else {
+        auto r = std::move(f).Get();
+        digest(r);
+      }
+    });
+    producer.join();
+    consumer.join();
+    if (tail.Valid()) {
+      yaclib::Wait(tail);
+    }
+  }
+  pool->Stop();
+  pool->Wait();
+  ctx.SetNontrivial(true);
+  if (!threw) {
+    // the library found a way to attach without allocating: nothing to decide here (never the case on the pinned tree)
+    ctx.Class("no-allocation-in-attach");
+    return;
+  }
+  ctx.Check(failed_ran.load(kRlx) == 0, "failed-attach-runs-nothing", "C01", "the continuation whose attach threw was invoked %d times",
+            failed_ran.load(kRlx));
+  ctx.Check(valid_after_throw, "future-valid-after-failed-attach", "C01",
+            "the Future is no longer Valid() after an attach that threw std::bad_alloc: the state is orphaned and the completion is lost");
+  if (!valid_after_throw) {
+    return;
+  }
+  Expect exp = prod == 0 ? Expect{0, code} : Expect{2, -1};
+  CheckObs(ctx, obs, exp, sh, 1, "consumer that re-attached after a failed attach");
+}
+
 void ThrowingSetCase(Ctx& ctx) {
   using R = Result<Bomb, MyError>;
   ResetTags();
@@ -869,6 +1053,9 @@ VF_CELL(owner_destroyed, "continuation-destroys-promise-owner", "C01,C03,C04", 5
 }
 VF_CELL(throwing_set, "set-throws-then-retry-or-drop", "C01,C03", 5) {
   ThrowingSetCase(ctx);
+}
+VF_CELL(attach_fails, "attach-fails-then-retry", "C01,C03", 4) {
+  AttachFailsCase(ctx);
 }
 VF_CELL(overwrite, "pending-promise-overwritten", "C01,C03", 4) {
   OverwriteCase(ctx);
